@@ -155,10 +155,12 @@ ImplMatches(ps, nm) == LET re == Regex(ps) IN
 RECURSIVE IFind(_, _, _, _)
 IFind(d, k, nm, result) ==
    IF k > Len(d) THEN result
-   ELSE LET r == ImplMatches(d[k], nm) IN
+   ELSE LET r  == ImplMatches(d[k], nm)
+            nr == IF r = "match" THEN k ELSE result IN
         IF r = "FormatError" THEN -1
         ELSE IF r = "match" /\ FindFirst THEN k
-        ELSE IFind(d, k + 1, nm, IF r = "match" THEN k ELSE result)
+        ELSE IF nr >= 0 THEN IFind(d, k + 1, nm, nr)     \* (the test only makes TLC evaluate nr now: a lazily
+        ELSE -1                                          \*  accumulated argument blows up on 100 paragraphs)
 ImplFind(d, nm) == IFind(d, 1, nm, 0)
 
 ----------------------------------------------------------------------------
